@@ -1,8 +1,9 @@
 /-
   C02 — "Inferred types are tight"   (DESIGN §8.2), per-function pieces.
 
-  1. `merge_opt_iff`      — when a field of `merge_field_sets` is Optional (FALSE as stated: negative
-                            witnesses + `_partial`s), and the key order of the merge
+  1. `merge_opt_iff`      — when a field of `merge_field_sets` is Optional (still FALSE as stated after the
+                            repair of generator.py:155: negative witnesses B, C + `_partial`s; TRUE in the lax
+                            form `merge_hasOpt_iff`, for arbitrary sets), and the key order of the merge
   2. `mkUnion_members_subset` — where the members of `DUnion(*ts)` come from
   3. `detect_unknown_only_empty` — `Unknown` only under an empty container, `DOptional` never, in `_detect_type`
   4. `optimize_no_new_atoms` — `optimize_type` invents no value atom (up to "string-like ⇒ str")
@@ -82,6 +83,34 @@ theorem merge_opt_only_if {c : LitCfg} {e : EqEnv} {sets : List Fields} {fields 
     (h : mergeFieldSets c e sets = .ok fields) (hnn : NoNestedOpt sets) {k : String} {t : Ty}
     (hm : (k, t) ∈ fields) (ho : HasOptMember t) : OptIn sets k ∨ AbsentIn sets k :=
   mergeFieldSets_opt_only_if h hnn hm ho
+
+/-- **C02.1 (full, in the lax form).**  For *arbitrary* field sets (`DOptional` fields and unions with
+    `DOptional` members allowed — what `ModelRegistry._merge` passes): the merged type of `k` is
+    *optional-like* (`HasOptMember`: a `DOptional` at its top or among its flattened union members — exactly
+    what `optimize_type` turns into a `DOptional`) iff `k` has an optional-like type in some set or is absent
+    from some set.  Direction ⇐ was false before the repair of generator.py:155 (old witness A). -/
+theorem merge_hasOpt_iff {c : LitCfg} {e : EqEnv} {sets : List Fields} {fields : Fields}
+    (h : mergeFieldSets c e sets = .ok fields) {k : String} {t : Ty} (hm : (k, t) ∈ fields) :
+    HasOptMember t ↔ HasOptIn sets k ∨ AbsentIn sets k :=
+  mergeFieldSets_hasOpt_iff h hm
+
+/-- in particular: a key that is `DOptional` in some set is optional-like in the merge (no hypothesis) … -/
+theorem merge_hasOpt_of_optIn {c : LitCfg} {e : EqEnv} {sets : List Fields} {fields : Fields}
+    (h : mergeFieldSets c e sets = .ok fields) {k : String} {t : Ty} (hm : (k, t) ∈ fields)
+    (ho : OptIn sets k) : HasOptMember t := by
+  obtain ⟨fs, hfs, u, hu, huo⟩ := ho
+  exact mergeFieldSets_hasOpt_of_in h hm ⟨fs, hfs, u, hu, hasOptMember_of_isOpt huo⟩
+
+/-- … and a `DOptional` in the merge has a cause, without `NoNestedOpt` (the cause may be a union member) -/
+theorem merge_opt_only_if_lax {c : LitCfg} {e : EqEnv} {sets : List Fields} {fields : Fields}
+    (h : mergeFieldSets c e sets = .ok fields) {k : String} {t : Ty}
+    (hm : (k, t) ∈ fields) (ho : t.isOpt = true) : HasOptIn sets k ∨ AbsentIn sets k :=
+  mergeFieldSets_hasOpt_only_if h hm (hasOptMember_of_isOpt ho)
+
+/-- non-vacuity on witness B: the merged `Union[Optional[str], int]` is optional-like, the cause is set 2 -/
+example : HasOptMember (.union [.opt .str, .int]) ∧ HasOptIn [[("a", .int)], [("a", .opt .str)]] "a" :=
+  ⟨⟨.opt .str, by simp [Ty.unionMembers, flattenUnion], rfl⟩,
+   ⟨[("a", .opt .str)], by simp, .opt .str, by simp, hasOptMember_of_isOpt rfl⟩⟩
 
 /-- **`merge_opt_iff_partial`** — the iff on opt-free sets (what `generate` and `_optimize_union` pass
     at the generator stage): optional ⇔ absent from some set.
